@@ -90,8 +90,6 @@ func corrC02(c *corrCtx) {
 	sfCross(c, 3000)
 	r := c.rng
 	fns := encFns()
-	specials := []uint32{0, 0x80000000, 1, 0x80000001, 0x007fffff, 0x00800000, 0x3f7fffff, 0x3f800000, 0x3f800001, 0x40000000,
-		0x7f7fffff, 0x7f800000, 0xff800000, 0x7fc00000, 0xffc00000, 0x7f800001, 0x7fffffff, 0xff7fffff, 0xbf800000, 0x3b000000, 0x3b7fffff}
 	for _, fn := range fns {
 		for _, b := range specials {
 			v, p := safeEnc(fn.f, bf(b))
@@ -383,6 +381,10 @@ func wordsHex(w []uint64) string {
 	return s
 }
 
+// every class of float32: zeros, denormals, around 1, above 1, infinities, quiet and signalling NaNs
+var specials = []uint32{0, 0x80000000, 1, 0x80000001, 0x007fffff, 0x00800000, 0x3f7fffff, 0x3f800000, 0x3f800001, 0x40000000,
+	0x7f7fffff, 0x7f800000, 0xff800000, 0x7fc00000, 0xffc00000, 0x7f800001, 0x7fffffff, 0xff7fffff, 0xbf800000, 0x3b000000, 0x3b7fffff}
+
 func corrC14(c *corrCtx) {
 	sfCross(c, 2000)
 	r := c.rng
@@ -498,11 +500,16 @@ func corrC14(c *corrCtx) {
 				lin[r.intn(3)] = float32(1 + r.f64()*1e-3)
 			}
 			al := float32(r.intn(65536)) / 65535
-			switch r.intn(5) {
+			switch r.intn(6) {
 			case 0:
 				al = float32(r.pick(0, 1, 2, 127, 128, 254, 255)) / 255
 			case 1:
 				al = float32(r.f64())
+			case 2: // every class of float32: NaNs, infinities, negative zero, out of range, denormals
+				al = bf(specials[r.intn(len(specials))])
+			}
+			if k%50 == 7 {
+				al = float32(math.NaN())
 			}
 			zero := [3]float32{0, 0, 0}
 			type cv struct {
@@ -518,6 +525,19 @@ func corrC14(c *corrCtx) {
 				{"torgba64", uint32(b1.A), uint32(b0.A), fmt.Sprintf("%08x %08x %08x %08x", b1.R, b1.G, b1.B, b1.A)},
 				{"tonrgba", uint32(n1.A), uint32(n0.A), fmt.Sprintf("%08x %08x %08x %08x", n1.R, n1.G, n1.B, n1.A)},
 				{"torgba", uint32(p1.A), uint32(p0.A), fmt.Sprintf("%08x %08x %08x %08x", p1.R, p1.G, p1.B, p1.A)}} {
+				if al != al {
+					// a NaN alpha is not clipped to the maximum: the code writes what the platform's
+					// float-to-integer conversion gives for NaN (0 on this machine, measured here)
+					nan := float32(math.NaN())
+					mx := uint32(255)
+					if x.name == "tolin64" || x.name == "torgba64" {
+						mx = 65535
+					}
+					if want := uint32(uint16(nan*float32(mx) + 0.5)); x.got != want {
+						c.direct(fmt.Sprintf("C14/nan-alpha/%s/%s", s.name, x.name), "a NaN alpha is encoded as a non-zero code (the clip to the maximum applies to alpha >= 1 only)",
+							map[string]interface{}{"space": s.name, "converter": x.name, "alpha_out": x.got, "platform_uint_of_nan": want})
+					}
+				}
 				if x.got != x.ref {
 					c.direct(fmt.Sprintf("C14/alpha-from-colour/%s/%s/%08x", s.name, x.name, fb(al)), "the alpha a converter writes depends on the colour's components (it must be round(alpha*max) of alpha alone)",
 						map[string]interface{}{"space": s.name, "converter": x.name, "colour": lin, "alpha": al, "alpha_out": x.got, "alpha_out_for_black": x.ref})
